@@ -120,6 +120,8 @@ def gen_attempts(r: random.Random, cfg: dict, kn: dict, n: int) -> list[dict]:
             step["falsy"] = True
         elif kind == "exc" and kn.get("p_frozen_exc") and r.random() < kn["p_frozen_exc"]:
             step["frozen"] = True
+        elif kind == "exc" and r.random() < kn.get("p_builtin_base", 0.08):
+            step[r.choice(["rt", "oserr"])] = True      # the failure is also a RuntimeError / OSError
         if kind == "exc" and r.random() < kn.get("p_reuse_exc", 0.1):
             step["reuse"] = True
         if r.random() < kn.get("p_ra", 0.15):
@@ -278,4 +280,18 @@ def gen_retry(seed: int, kn: dict | None = None) -> dict:
         if prev:
             pre.append(["adv", prev])
         scn["pre"] = pre
+    if cfg["budget"] is not None and r.random() < kn.get("p_ext_consume", 0.15):
+        # another consumer sharing the budget takes a token exactly while the strategy is being evaluated
+        for c in calls:
+            c["ext_consume"] = sorted(r.sample(range(0, 4), r.randint(1, 2)))
+    if r.random() < kn.get("p_sized_strategy", 0.08):
+        cfg["strat_shape"] = "sized"
+    if place["handler"] != "none" and kn.get("p_slow_handler") and r.random() < kn["p_slow_handler"]:
+        for c in calls:
+            c["handler_dur"] = [r.choice([0, 1000, 250_000, 500_000, 2_000_000]) for _ in range(r.randint(1, 3))]
+    if r.random() < kn.get("p_late", 0.1):
+        # some settings reach the live policy object only after construction (attribute assignment through the entry
+        # object: the facades forward to their retry component); decorator / from_config entries are built complete
+        place["late"] = r.sample(["budget", "sleep", "before_sleep", "sleeper", "result_classifier", "max_unknown_attempts", "deadline", "max_attempts"],
+                                 r.randint(1, 3))
     return scn
